@@ -24,7 +24,17 @@ check('C14', 'model_checking',
       'TLA+ model checking (TLC) + trace validation of recorded event histories + state-graph edge replay',
       'DESIGN.md 3, 4/C14')
 
-PENDING = ['C01', 'C02', 'C03', 'C04', 'C05', 'C06', 'C07', 'C08', 'C09', 'C10', 'C11', 'C12', 'C13', 'C15', 'C16', 'C17', 'C18']
+check('C13', 'model_checking',
+      'SpynePipeline.tla (WSGI scenario family: body length x declared CONTENT_LENGTH x max_content_length x block_length x '
+      'chunked x outcome x generator result x ?wsdl/?wsdl build failure x client abort after k chunks) is model-checked '
+      'exhaustively against the C13 clauses (start_response once and first, Content-Length, bytes, read bound, 413 refusal '
+      'without user code, context closed exactly once and after the body). Every scenario is driven through the real '
+      'WsgiApplication with a recording start_response, a counting wsgi.input and listeners; TLC evaluates the same clauses '
+      'on each recorded history and checks it is a behaviour of the model; wsgiref.validate is a second monitor.',
+      'TLA+ model checking (TLC) + scenario replay + trace validation of recorded WSGI exchanges',
+      'DESIGN.md 3, 4/C13')
+
+PENDING = ['C01', 'C02', 'C03', 'C04', 'C05', 'C06', 'C07', 'C08', 'C09', 'C10', 'C11', 'C12', 'C15', 'C16', 'C17', 'C18']
 
 def main():
     import importlib
